@@ -156,16 +156,20 @@ def option_test_edges(body, dag, result_local):
     return out
 
 
-def flag_paths(body, dag, start, stop_blocks, cut):
-    """Path exploration that understands boolean flags: blocks reachable from `start` without entering `stop_blocks`, where
-      * an edge is pruned when it contradicts the constant last assigned to the tested flag on that path
-        (`let must = match .. { A => true, B => !f() }; if must {..}`: the false edge is infeasible after the `true` arm), and
+def flag_paths(body, dag, start, stop_blocks=(), cut=None, follow_back=True):
+    """Path exploration that understands flags: blocks reachable from `start` without entering `stop_blocks`, where
+      * an edge is pruned when it contradicts the value last assigned to the tested flag on that path
+        (`let must = match .. { A => true, B => !f() }; if must {..}`: the false edge is infeasible after the `true` arm;
+         `let r = if c { Some(x) } else { None }; match r {..}`: the None arm is infeasible after the `Some` assignment -- the shape an extracted / inlined
+         helper that answers an Option leaves behind), and
       * `cut(facts)` is asked for every remaining edge of a boolean switch with facts = [(expression, truth)] implied by taking it
         (the tested value with its negations peeled, read through the flag when the switch tests a flag) and ends the path there when it answers True.
-    A flag is a bool local assigned as a whole in two or more places.  States are (block, last definition of each flag); back edges are followed (finite)."""
+    A flag is a local assigned as a whole in two or more places; single-definition copies of it (`_t = move flag`, `_d = discriminant(_t)`) are read through.
+    States are (block, last definition of each flag)."""
     from mir import op_local
-    flags = {l for l, ds in body.defs.items() if len([d for d in ds if d[0] in body.reachable]) >= 2
-             and body.locals[l]["ty"] == "bool" and all(d[1] != "T" for d in ds)}
+    cut = cut or (lambda facts: False)
+    flags = {l for l, ds in body.defs.items() if len([d for d in ds if d[0] in body.reachable]) >= 2 and all(d[1] != "T" for d in ds)}
+    back = set(body.back_edges) if not follow_back else set()
     def peel(e):
         neg = False
         while isinstance(e, tuple) and e and e[0] == "un" and e[1] == "Not":
@@ -176,6 +180,18 @@ def flag_paths(body, dag, start, stop_blocks, cut):
             if e[1] in (0, 1, True, False): return bool(e[1])
             if str(e[1]) in ("true", "false"): return str(e[1]) == "true"
         return None
+    def resolve(l):
+        """follows single-definition copies / discriminant reads back to a flag: (flag local or None, through_discriminant)"""
+        disc = False
+        for _ in range(12):
+            if l is None or l in flags: return l, disc
+            d = body.single_def(l)
+            if d is None or d[1] == "T": return None, disc
+            rv = d[2]
+            if rv[0] == "Use" and rv[1][0] in ("c", "m") and not rv[1][1]["p"]: l = rv[1][1]["l"]
+            elif rv[0] == "Discr" and not rv[1]["p"] and not disc: l = rv[1]["l"]; disc = True
+            else: return None, disc
+        return None, disc
     seen = set(); reached = set()
     st = [(start, ())]
     while st:
@@ -183,33 +199,44 @@ def flag_paths(body, dag, start, stop_blocks, cut):
         if (b, envt) in seen or b in stop_blocks: continue
         seen.add((b, envt)); reached.add(b)
         env = dict(envt)
-        copies = {}
         for i, s_ in enumerate(body.stmts(b)):
             if s_[0] != "A" or s_[1]["p"]: continue
             l = s_[1]["l"]
-            if l in flags: env[l] = (b, i)
-            elif s_[2][0] == "Use" and op_local(s_[2][1]) in flags and not (s_[2][1][1].get("p") if s_[2][1][0] != "k" else True):
-                copies[l] = op_local(s_[2][1])
+            if l in flags:
+                rv = s_[2]
+                if rv[0] == "Use" and rv[1][0] in ("c", "m") and not rv[1][1]["p"] and rv[1][1]["l"] in env:
+                    env[l] = env[rv[1][1]["l"]]          # flag copied into another flag (`dst = move ret` at each inlined return)
+                else:
+                    env[l] = (b, i)
         t = body.term(b)
         nenv = tuple(sorted(env.items()))
-        if t[0] == "Switch" and t[5] == "bool":
-            l = op_local(t[1])
-            l = copies.get(l, l)
-            ft = [tg for (v, tg) in t[2] if v == 0]
-            edges = [(t[3], True)] + ([(ft[0], False)] if ft else [])
-            if l in flags and l in env:
-                db, di = env[l]
-                e, neg = peel(dag.rvalue((db, di, body.stmts(db)[di][2]), 0))
-            else:
-                e, neg = peel(dag.expr(t[1]))
-            cv = constval(e)
-            for (tg, val) in edges:
-                inner_truth = (not val) if neg else val
-                if cv is not None and cv != inner_truth: continue          # infeasible on this path
-                if cv is None and cut([(e, inner_truth)]): continue
-                st.append((tg, nenv))
-        else:
-            for s2 in body.succ(b): st.append((s2, nenv))
+        succs = None
+        if t[0] == "Switch":
+            fl, disc = resolve(op_local(t[1]))
+            rv = None
+            if fl is not None and fl in env:
+                db, di = env[fl]; rv = body.stmts(db)[di][2]
+            if disc:
+                if rv is not None and rv[0] == "Agg" and rv[1][0] == "Adt" and isinstance(rv[1][3], int):
+                    v = rv[1][3]
+                    tg = [x[1] for x in t[2] if x[0] == v]
+                    succs = [tg[0]] if tg else [t[3]]
+            elif t[5] == "bool":
+                ft = [tg for (v, tg) in t[2] if v == 0]
+                edges = [(t[3], True)] + ([(ft[0], False)] if ft else [])
+                if rv is not None: e, neg = peel(dag.rvalue((db, di, rv), 0))
+                else: e, neg = peel(dag.expr(t[1]))
+                cv = constval(e)
+                succs = []
+                for (tg, val) in edges:
+                    inner_truth = (not val) if neg else val
+                    if cv is not None and cv != inner_truth: continue          # infeasible on this path
+                    if cv is None and cut([(e, inner_truth)]): continue
+                    succs.append(tg)
+        if succs is None: succs = body.succ(b)
+        for s2 in succs:
+            if (b, s2) in back: continue
+            st.append((s2, nenv))
     return reached
 
 
